@@ -10,7 +10,7 @@ seed = int(sys.argv[3]) if len(sys.argv) > 3 else 1
 ctx = fw.Ctx('C01', 'quick', seed)
 g = progs.G(ctx.rng)
 mk = {'expr': lambda: g.expr_program(ctx.rng.randint(1, 5)), 'flow': lambda: g.flow_program(3),
-      'copy': lambda: g.copy_program(ctx.rng.randint(3, 12)), 'call': g.call_program, 'exc': g.exc_program,
+      'copy': lambda: g.copy_program(ctx.rng.randint(3, 12)), 'call': g.call_program, 'inst': g.inst_program, 'exc': g.exc_program,
       'scope': g.scope_program, 'text': lambda: g.text_program(ctx.rng.randint(2, 8)), 'coll': lambda: g.coll_program(ctx.rng.randint(3, 12))}[gen]
 ps = [mk() for _ in range(count)]
 srcs, go, model, spec = progs.run_stream(ctx, gen, ps)
